@@ -43,7 +43,18 @@ impl Vm {
         let mut lambda = Lambda::new_from_iof(vec![], vec![], &entry_lambda, &[], false);
         lambda.set_top_level();
         lambda.emit(OpCode::Enter);
-        self.compile(&mut lambda, true, expr)?;
+        // A begin at the top level splices its forms into the top level, so that
+        // definitions inside it are global definitions. Anywhere else begin is the
+        // derived form from the prelude.
+        let forms = match expr {
+            Cell::Pair(car, cdr) if car.is_symbol_str("begin") && cdr.is_list() => {
+                cdr.collect_vec()
+            }
+            _ => vec![expr],
+        };
+        for (it, form) in forms.iter().enumerate() {
+            self.compile(&mut lambda, it == forms.len() - 1, form)?;
+        }
         lambda.emit(OpCode::Ret);
         trace!("main: \n{}", self.decompile_text(&lambda));
         let lambda = self.heap.put(lambda);
